@@ -367,7 +367,7 @@ impl Property for C04 {
         ]
     }
     fn cases(&self, tier: Tier) -> u64 {
-        tier.pick(40_000, 1_000_000)
+        tier.pick(600_000, 8_000_000)
     }
     fn strategy(&self, _tier: Tier) -> BoxedStrategy<Case> {
         (text_strategy(40), proptest::collection::vec(link_strategy(), 1..=4), prop_oneof![9 => Just(false), 1 => Just(true)])
